@@ -2790,9 +2790,15 @@ class Cond(Generic[X, R], GFI[X, R]):
         # The discard holds what was visible before the update: the values of
         # the branch selected by the *old* condition.
         merged_discard, _ = self.callee.merge(discard, discard_, tr.check)
+        # An update keeps or overwrites every choice, so its weight is the ratio of
+        # the visible densities. Taking it from the visible scores directly (rather
+        # than from the branches' own weights plus a correction) keeps it finite
+        # when the hidden branch has zero density at the visible values.
+        old_visible_score = jnp.where(tr.check, *[get_score(t) for t in tr.trs])
+        new_visible_score = jnp.where(check, get_score(new_tr), get_score(new_tr_))
         return (
             CondTr(self, check, [new_tr, new_tr_]),
-            jnp.where(check, w, w_) + self._branch_switch_weight(tr, check),
+            old_visible_score - new_visible_score,
             merged_discard,
         )
 
